@@ -281,6 +281,7 @@ class Builder:
     self.data: Dict[str, str] = {}          # sentinel -> datum
     self.roles: Dict[str, str] = {}         # sentinel -> key / str / name / doc / classname
     self.taint_class_name = taint_class_name
+    self.root_name: Optional[str] = None
 
   def datum(self, role: str) -> str:
     self.n += 1
@@ -306,6 +307,9 @@ class Builder:
       return 1000 + self.n
     if k == 'z':
       return None
+    if k == 'c':
+      # a class object (not an instance) with a hostile __name__
+      return type('K' + self.datum('classname'), (), {})
     if k == 'dict1':
       return pg.Dict({self.datum('key'): self.build(shape[1])})
     if k == 'dict2':
@@ -382,13 +386,24 @@ def render_kwargs(opts: Dict[str, Any], value: Any, b: Builder) -> Tuple[Dict[st
       excluded = ('only', fk)
     elif kf == 'exclude_missing':
       kw['exclude_keys'] = [missing]
+    elif kf == 'include_all_reversed_generator':
+      keys = list(value.sym_keys()) if isinstance(value, pg.Object) else list(value.keys())
+      kw['include_keys'] = (k for k in reversed(keys))          # one-shot, order differs from the container
+    elif kf == 'exclude_first_iterator':
+      kw['exclude_keys'] = iter([fk])
+      excluded = ('only', fk)
+    elif kf == 'include_first_map':
+      kw['include_keys'] = map(lambda k: k, [fk])
+      excluded = ('all_but', fk)
     elif kf == 'exclude_first_callable':
       kw['exclude_keys'] = lambda path, v, parent, _k=fk: path.depth == 1 and path.key == _k
       excluded = ('only', fk)
   if opts['uncollapse_first'] and fk is not None:
     kw['uncollapse'] = pg.KeyPathSet([pg.KeyPath([fk])])
   if opts['root_name']:
-    kw['name'] = b.datum('name')
+    if b.root_name is None:
+      b.root_name = b.datum('name')
+    kw['name'] = b.root_name
   return kw, excluded
 
 
@@ -544,3 +559,54 @@ def build_control(rec: Dict[str, Any], b: Builder):
   if rec['wrap'] == 2:
     return [ctl], expect
   return ctl, expect
+
+
+# ---------------------------------------------------------------------------------------------
+# Faults: renderings / option scopes that carry options and raise part-way
+
+class _FaultError(Exception):
+  pass
+
+
+class BadLeaf:
+  """A leaf whose every textual form raises."""
+
+  def __repr__(self):
+    raise _FaultError('repr raises')
+
+  __str__ = __repr__
+
+  def __format__(self, spec):
+    raise _FaultError('format raises')
+
+
+class BadExtension(pg.views.HtmlTreeView.Extension):
+  """A user extension whose rendering hook raises."""
+
+  def _html_tree_view_content(self, **kwargs):
+    raise _FaultError('extension raises')
+
+
+def run_fault(kind: str, value: Any) -> str:
+  """Performs one failing rendering that carries options hostile to the later document (they hide its first key
+  and collapse everything); returns how it ended."""
+  fk = first_key(value)
+  hostile: Dict[str, Any] = dict(collapse_level=0, enable_summary_tooltip=False, enable_key_tooltip=False,
+                                 key_style='label', max_summary_len_for_str=3)
+  if fk is not None:
+    hostile['exclude_keys'] = [fk]
+  try:
+    if kind == 'fail_repr':
+      pg.to_html_str(pg.Dict(bad=BadLeaf(), keep=1), **hostile)
+    elif kind == 'fail_view_id':
+      pg.view(value, view_id='no-such-view-id', **hostile)
+    elif kind == 'fail_in_scope':
+      with pg.views.view_options(**hostile):
+        raise _FaultError('raised inside a view_options scope')
+    elif kind == 'fail_extension':
+      pg.to_html_str([BadExtension()], **hostile)
+    else:
+      raise ValueError(kind)
+    return 'completed'
+  except Exception as e:   # pylint: disable=broad-except
+    return type(e).__name__
